@@ -31,7 +31,7 @@ func init() {
 			{Name: fmt.Sprintf("listener-xpair-hist-D%d", d), Mode: "hist", Reset: kit.ResetGlobals, Body: func() { listenerHist(xpair.NewProtocol, d) },
 				NeedCounters: []string{"attached", "refused-by-protocol"}},
 			{Name: fmt.Sprintf("dialer-xpub-hist-D%d", d), Mode: "hist", Reset: kit.ResetGlobals, Body: func() { dialerHist(d) },
-				NeedCounters: []string{"attached", "detached", "redialled"}},
+				NeedCounters: []string{"attached", "detached", "redialled", "redial-refused"}},
 			{Name: fmt.Sprintf("two-dialers-xpair-hist-D%d", d-1), Mode: "hist", Reset: kit.ResetGlobals, Body: func() { twoDialersHist(d - 1) },
 				NeedCounters: []string{"attached", "refused-by-protocol", "redialled-after-refusal", "took-over"}},
 			{Name: "tcp-aborted-handshakes-then-peer", Mode: "enum", Reset: kit.ResetGlobals, Body: tcpAborted, NeedCounters: []string{"attached-after-aborted-handshake"}},
@@ -327,6 +327,18 @@ func dialerHist(depth int) {
 				evs = append(evs, kit.Event{Name: "app-close", Run: func() { kit.Must("Pipe.Close", func() { _ = w.list[last].p.Close() }) }})
 			}
 		}
+		// time passes while nobody listens at the address: a redial attempt made now fails, and the
+		// dialer (a synchronous one here: the first Dial has returned long ago) tries again later
+		evs = append(evs, kit.Event{Name: "advance:nobody-listening", Run: func() {
+			w.ep.Script(vt.DialRefused)
+			before := len(w.ep.Dials)
+			kit.Sleep(150 * time.Millisecond)
+			kit.Quiesce()
+			if len(w.ep.Dials) > before {
+				kit.Count("redial-refused")
+			}
+			w.ep.Script(vt.DialOK)
+		}})
 		for _, pol := range []string{"", "close-at-attaching", "close-at-attached"} {
 			pol := pol
 			evs = append(evs, kit.Event{Name: "advance:" + pol, Run: func() {
